@@ -143,11 +143,19 @@ def build(c):
     d.registry.add_methods(method)
     if c.get('twin'):
         d.registry.add_methods(pjrpc.server.Method(obj, 'g', c['twin']['ctx']))
-    extractor = PydanticSchemaExtractor(exclude_param=pred)
+    # ONE extractor object per exclusion rule documents every function of the run (all of them exposed as "f"): an extractor
+    # has no business remembering one function when it is asked about the next
+    ek = tuple(sorted(excluded))
+    if ek not in _EXTRACTORS:
+        _EXTRACTORS[ek] = PydanticSchemaExtractor(exclude_param=(lambda name, typ, default, _ek=ek: name in _ek) if ek else None)
+    extractor = _EXTRACTORS[ek]
     oas = openapi.OpenAPI(info=openapi.Info(title='t', version='1'), schema_extractor=extractor)
     orpc = openrpc.OpenRPC(info=openrpc.Info(title='t', version='1'), schema_extractor=extractor)
     _OBJS[key] = (d, method, oas, orpc, 'specbind:' + key[:60])
     return _OBJS[key]
+
+
+_EXTRACTORS = {}
 
 
 def resolve(doc, node):
